@@ -47,7 +47,7 @@ POSITIONS = [
     "input-default", "vars", "output", "action", "task-input", "items-list", "items-concurrency", "delay",
     "retry-count", "retry-delay", "retry-when", "transition-when", "publish", "downstream-input", "loop-publish",
 ]
-VARIANTS = ["plain", "pausing", "canceling", "late-after-cancel", "late-after-fail"]
+VARIANTS = ["plain", "pausing", "canceling", "late-after-cancel", "late-after-fail", "late-while-paused"]
 
 
 def expr(kind, lng):
@@ -256,12 +256,18 @@ def _run_cell(scn, stats):
                 ap({"op": "done", "a": ["t1", 0, None], "status": "succeeded", "result": {"code": 200}})
                 ap({"op": "poll"})
             if at in ("done-t1", "done-t1-second"):
-                if pos == "retry-when" and variant in ("late-after-cancel", "late-after-fail"):
+                if pos == "retry-when" and variant in ("late-after-cancel", "late-after-fail", "late-while-paused"):
                     raise NA()  # a retry is not considered once the workflow is over: never evaluated
                 if variant == "late-after-cancel":
                     ap({"op": "report", "a": ["t1", 0, None], "status": "pending"})
                     ap({"op": "done", "a": ["sib", 0, None], "status": "succeeded", "result": {"code": 200}})
                     ap({"op": "req", "status": "canceled"})
+                elif variant == "late-while-paused":
+                    # the action is pending (an inquiry), the workflow comes to rest paused, then the answer arrives
+                    ap({"op": "report", "a": ["t1", 0, None], "status": "pending"})
+                    ap({"op": "done", "a": ["sib", 0, None], "status": "succeeded", "result": {"code": 200}})
+                    if drv.status() != "paused":
+                        raise Violation("host-not-paused-with-a-pending-action", dict(info, status=drv.status()))
                 elif variant == "late-after-fail":
                     ap({"op": "done", "a": ["sib", 0, None], "status": "failed", "result": {"code": 500}})
                 else:
